@@ -20,7 +20,9 @@ def obsStep (s : St) (a : Act) (s' : St) : List Ev :=
   | .helperGuard c => if (s.chk c).running then [] else [Ev.execStart c]     -- the command starts after a successful guard
   | .result c => [Ev.execEnd c]
   | .procExit c => [Ev.execEnd c]                                            -- the process has finished
-  | .objectHandler c => [locOf s' c]
+  | .setActive c _ => [Ev.opBegin c]                                          -- an authority-changing operation is under way
+  | .setPaused c _ => [Ev.opBegin c]
+  | .objectHandler c => [Ev.authority c (s'.chk c).schedulable, locOf s' c]    -- its handler has run
   | .nextCheckChanged c => [locOf s' c]
   | .helperFinish c => [locOf s' c]
   | _ => []
